@@ -559,6 +559,8 @@ class SimSolver:
                 for key in ("expect", "tag"):
                     if key in steer:
                         ev["steer"][key] = steer[key]
+                if "expect" in steer:
+                    ev["steer"]["pins"] = steer.get("pins")
                 self._steer_ok = True
                 return _z3.sat
             env.steer_refused += 1
@@ -566,6 +568,8 @@ class SimSolver:
             for key in ("expect", "tag"):
                 if key in steer:
                     ev["steer"][key] = steer[key]
+            if "expect" in steer:
+                ev["steer"]["pins"] = steer.get("pins")
             return None
         if mode == "greedy":
             # greedy random pinning: walk the decision unknowns in a keyed random order and
